@@ -218,6 +218,18 @@ NAMED_COMMANDS = [
 ]
 
 
+FILE_COMMANDS = [
+    ('cnfgen', ['kcolor', 3, 'gml', _os.path.join(DATA, 'g1.gml'), 'addedges', 2, '-T', 'shuffle']),
+    ('cnfgen', ['peb', _os.path.join(DATA, 'd1.kthlist')]),
+    ('cnfgen', ['php', _os.path.join(DATA, 'b1.matrix')]),
+    ('cnfgen', ['dimacs', _os.path.join(DATA, 'f6.cnf'), '-T', 'shuffle']),
+    ('pbgen', ['dimacs', _os.path.join(DATA, 'f10.cnf')]),
+    ('cnfshuffle', ['-i', _os.path.join(DATA, 'f6.cnf')]),
+    ('kthlist2pebbling', ['-i', _os.path.join(DATA, 'd2.kthlist')]),
+    ('cnfgen', ['tseitin', 'randomodd', 'dimacs', _os.path.join(DATA, 'v2.dimacs'), 'addedges', 1]),
+]
+
+
 def _same_output(ci, si, tape):
     tool, argv = COMMANDS[ci]
     seed = SEEDS[si]
@@ -275,6 +287,90 @@ def _lib(li, seed, tape):
                 B = G.bipartite_random_m_edges(3, 3, 7, seed=seed)
             return sorted(B.edges())
     return once() == once()
+
+
+def _lib_headers(ci, tape):
+    """a library call made twice on equal but distinct argument objects gives the same complete output, header included
+    (no object identity, no counter, nothing of the first call in the second)"""
+    import cnfgen.graphs as G
+    from cnfgen.formula.cnf import CNF
+    from cnfgen.formula.opb import OPB
+    from cnfgen.families.coloring import GraphColoringFormula, EvenColoringFormula
+    from cnfgen.families.dominatingset import DominatingSet, Tiling
+    from cnfgen.families.subgraph import CliqueFormula, BinaryCliqueFormula, RamseyWitnessFormula, SubgraphFormula
+    from cnfgen.families.ordering import GraphOrderingPrinciple
+    from cnfgen.families.counting import PerfectMatchingPrinciple
+    from cnfgen.families.tseitin import TseitinFormula
+    from cnfgen.families.graphisomorphism import GraphIsomorphism, GraphAutomorphism
+    from cnfgen.families.pigeonhole import GraphPigeonholePrinciple
+    from cnfgen.families.subsetcardinality import SubsetCardinalityFormula
+    from cnfgen.families.pebbling import PebblingFormula, StoneFormula, SparseStoneFormula
+    from cnfgen.transformations.substitutions import VariableCompression, XorSubstitution
+    from cnfgen.transformations.shuffle import Shuffle
+
+    def S():
+        H = G.Graph(4)
+        for e in ((1, 2), (2, 3), (3, 4), (1, 4)):
+            H.add_edge(*e)
+        return H
+
+    def T():
+        H = G.Graph(2)
+        H.add_edge(1, 2)
+        return H
+
+    def B():
+        X = G.BipartiteGraph(3, 3)
+        for e in ((1, 1), (1, 2), (2, 2), (3, 3), (3, 1)):
+            X.add_edge(*e)
+        return X
+
+    def D():
+        X = G.DirectedGraph(3)
+        X.add_edge(1, 3)
+        X.add_edge(2, 3)
+        return X
+    calls = [
+        lambda c: SubgraphFormula(S(), T(), induced=True, formula_class=c), lambda c: SubgraphFormula(S(), T(), induced=False, symbreak=True, formula_class=c),
+        lambda c: GraphColoringFormula(S(), 3, functional=False, formula_class=c), lambda c: EvenColoringFormula(S(), formula_class=c),
+        lambda c: DominatingSet(S(), 2, alternative=True, formula_class=c), lambda c: Tiling(S(), formula_class=c),
+        lambda c: CliqueFormula(S(), 2, symbreak=False, formula_class=c), lambda c: BinaryCliqueFormula(S(), 2, symbreak=False, formula_class=c),
+        lambda c: RamseyWitnessFormula(S(), 2, 3, symbreak=False, formula_class=c),
+        lambda c: GraphOrderingPrinciple(S(), total=True, formula_class=c), lambda c: GraphOrderingPrinciple(S(), smart=True, plant=True, formula_class=c),
+        lambda c: GraphOrderingPrinciple(S(), knuth=3, formula_class=c), lambda c: PerfectMatchingPrinciple(S(), formula_class=c),
+        lambda c: TseitinFormula(S(), [1, 0, 0, 1], formula_class=c), lambda c: GraphIsomorphism(S(), S(), formula_class=c),
+        lambda c: GraphAutomorphism(S(), formula_class=c), lambda c: GraphPigeonholePrinciple(B(), functional=True, onto=True, formula_class=c),
+        lambda c: SubsetCardinalityFormula(B(), equalities=True, formula_class=c), lambda c: PebblingFormula(D(), formula_class=c),
+        lambda c: StoneFormula(D(), 2, formula_class=c), lambda c: SparseStoneFormula(D(), B(), formula_class=c),
+        lambda c: VariableCompression(CNF([[1, -2], [3]]), B(), 'maj'), lambda c: XorSubstitution(GraphColoringFormula(T(), 2), 2),
+        lambda c: Shuffle(PebblingFormula(D()), 'fixed', 'fixed', 'fixed'),
+    ]
+
+    def once(cls):
+        with environment(tape):
+            F = calls[ci](cls)
+            buf = io.StringIO()
+            F.to_file(buf, export_header=True)
+            return buf.getvalue()
+    for cls in (CNF, OPB):
+        if once(cls) != once(cls):
+            return False
+    return True
+
+
+def h_e_lib_headers(ci: int) -> bool:
+    """
+    pre: 0 <= ci <= 23
+    post: _
+    """
+    tape = Tape(limit=40)
+    try:
+        ok = untraced(_lib_headers, pick(ci, 0, 23), tape)
+    except TapeExhausted:
+        return True
+    if not ok:
+        raise AssertionError('library call %d made twice on equal arguments gives different output TAPE=%r' % (ci, tape.log))
+    return True
 
 
 STREAM_NAMES = ['zeros', 'big', 'alt', 'count', 'mix']
